@@ -95,6 +95,9 @@ def block_exceptions(U, chunk):
         U.ensures("a block with a covered instruction reports a try range", ea is not None, block=b.get_start(), **d)
         if ea is None:
             continue
+        U.ensures("every try range that covers an instruction of the block is the one the block reports (a block never spans two "
+                  "ranges)", all(r[0] == ea.start and r[1] == ea.end for r in covering), block=(b.get_start(), b.get_end()),
+                  covering=[r[:2] for r in covering], got=(ea.start, ea.end), **d)
         match = [r for r in covering if r[0] == ea.start and r[1] == ea.end]
         U.ensures("the reported range covers an instruction of the block", bool(match), block=b.get_start(),
                   got=(ea.start, ea.end), **d)
